@@ -442,6 +442,12 @@ func finish(w *World, ev *Evidence, results []*harnessResult, kf *knownFindings,
 		}
 		return 2
 	}
+	if exit == 0 && len(ev.Inconclusive) > 0 {
+		// part of the stated bound was not decided (an unmodelled call, a budget, a solver timeout, a
+		// counterexample that did not reproduce): that is not a pass
+		fmt.Printf("NOT-DECIDED property=%s tier=%s: %d inconclusive item(s) above; no violation was reproduced, but the check does not claim the property for this tree\n", prop, tier, len(ev.Inconclusive))
+		return 2
+	}
 	if exit == 0 {
 		fmt.Printf("OK property=%s tier=%s paths=%d queries=%d wall=%.1fs\n", prop, tier, ev.Coverage.States, ev.Coverage.Queries["total"], time.Since(t0).Seconds())
 	}
